@@ -84,6 +84,10 @@ func (in *instance) freshLike() *instance {
 	return f
 }
 
+// c05InnerTexts are what a re-entrant function has its own calculator evaluate: longer than most outer
+// expressions, with operators where the outer program has operands.
+var c05InnerTexts = []string{"1 + 2 * 3", "Max(1, 2) + Min(3, 4) * 2 - 1", "a + b * c - (a / 1) + 2 * 3 - 4", "1", "(", "zz", "'x' + 1 + 2 + 3 + 4 + 5 + 6 + 7 + 8 + 9"}
+
 // c05DefNames are the standard functions the default-collection edits replace or remove.
 var c05DefNames = []string{"Min", "Max", "Abs", "Sum", "If", "Sqrt", "Contains", "Empty", "Array", "Choose"}
 
@@ -489,6 +493,18 @@ func (in *instance) step(o Op, sets []VarSet, dry *stepStats) (res string, st st
 				fn.Kind, fn.At, fn.Msg = f.Kind, max(1, f.At&0xff), f.At>>8
 			case "fn_error_plain":
 				fn.Kind, fn.At, fn.Msg = "fn_error", max(1, f.At&0xff), f.At>>8
+			case "fn_reenter":
+				// the function calls back into the calculator that is calling it (an "Eval(text)" function): it sets
+				// another expression there, evaluates it and returns its value
+				fn.Kind, fn.At, fn.Msg = f.Kind, max(1, f.At&0xff), f.At>>8
+				inner := c05InnerTexts[(f.At>>8)%len(c05InnerTexts)]
+				fn.Reenter = func() (*variants.Variant, error) {
+					in.parsed, in.lastText = false, ""
+					if err := in.calc.SetExpression(inner); err != nil {
+						return nil, err
+					}
+					return in.calc.EvaluateUsingVariablesAndFunctions(vars, funcs)
+				}
 			}
 		}
 		in.calc.SetVariantOperations(ops)
@@ -661,7 +677,7 @@ func c05Fault(r *Rand, kind string, mode string) *Fault {
 		return &Fault{Kind: k, At: r.Intn(1 << 20)}
 	}
 	if kind == "calc" {
-		k := r.Pick([]string{"op_error", "var_missing", "fn_error", "fn_panic", "fn_error_plain", "fn_both"})
+		k := r.Pick([]string{"op_error", "var_missing", "fn_error", "fn_panic", "fn_error_plain", "fn_both", "fn_reenter"})
 		return &Fault{Kind: k, At: r.Intn(1 << 20), Name: r.Pick([]string{"a", "b", "c"})}
 	}
 	return nil
